@@ -551,10 +551,15 @@ func c12Free(r *core.Result, seed int64, reps int) {
 func c12SharedInputs(r *core.Result, c *ipa.IPAConfig, seed int64) {
 	const callers = 4
 	for _, op := range roMenu() {
+		// the expected output comes from a separate copy of the arguments: the objects the concurrent callers
+		// share have not been through any call before
 		g := newPlain(1 << 20)
 		var call func() string
 		var alone string
-		if !guard(r, "c12.panic", op.name, "shared read-only arguments: preparing", func() { call = op.prep(c, seed, g); alone = call() }) {
+		if !guard(r, "c12.panic", op.name, "shared read-only arguments: preparing", func() {
+			alone = op.prep(c, seed, newPlain(1<<20))()
+			call = op.prep(c, seed, g)
+		}) {
 			continue
 		}
 		outs := make([]string, callers)
@@ -760,7 +765,20 @@ func c12Units(ctx *core.Ctx) []core.Unit {
 				}
 			}
 			if err != nil {
-				if !strings.Contains(es, "DATA RACE") {
+				implCrash := false
+				if strings.Contains(es, "panic:") || strings.Contains(es, "fatal error:") {
+					for _, ln := range strings.Split(es, "\n") {
+						if strings.Contains(ln, "github.com/crate-crypto/go-ipa") && !strings.Contains(ln, "/zzverif/") {
+							implCrash = true
+						}
+					}
+				}
+				switch {
+				case implCrash:
+					// a panic on a goroutine nobody recovers (a worker of the implementation, or one of the concurrent
+					// callers) ends the process: the call did not return what it returns when executed alone
+					vio(r, "c12.crash", "concurrent API calls", "all pairs of the C12 bodies free-running under -race, GOMAXPROCS="+gmp, "no crash", clip3k(es))
+				case !strings.Contains(es, "DATA RACE"):
 					r.ToolError = fmt.Sprintf("race child failed: %v\n%s", err, clip3k(es))
 				}
 				return
